@@ -190,7 +190,7 @@ PROPS = {
                  "the census of raw operations in tools/census.json is the tie between the model's panic sites and the decoder sources"],
     ),
     "C19": dict(
-        suites=[("cfgload", 1500, 60000), ("cfgfield", 3000, 240000), ("dhcpcfg", 500, 20000), ("ra", 500, 40000)],
+        suites=[("cfgload", 1500, 60000), ("cfgfield", 3000, 240000), ("dhcpcfg", 500, 20000), ("ra", 500, 40000), ("acl", 1000, 100000), ("route", 400, 20000)],
         extracted=["cfg.typeNameChecked", "cfg.durationChecked", "cfg.hexdigitArms", "cfg.sectionsChecked", "cfg.prefixLenChecked",
                    "dhcp.defaultPoolMinLen", "dhcp.applySubnetMinLen", "pkt.subnetPrefixLenMax",
                    "census.config", "census.dhcpconfig", "census.radvconfig", "census.dnsconfig", "census.acl"],
